@@ -211,7 +211,17 @@ pub fn cases(tier: &str, seed: u64) -> Vec<Case> {
                 if matches!(rd, RData::OPT(_)) { continue; }
                 let first = ResourceRecord::new(g.name(), CLASS::IN, 1, RData::NS(NS(g.name())));
                 let rr = ResourceRecord::new(g.name(), CLASS::IN, 5, rd);
-                let ptxt = format!("P 7 32768 0 0 o0 0 2 {} {} 0 0", text::rr(&first), text::rr(&rr));
+                // two times in three the message also asks a question: a fresh name, or the first owner's name in another
+                // spelling of its letters (names are carried as they were sent; only comparisons ignore case)
+                let qtxt = match rep % 3 {
+                    0 => "0".to_string(),
+                    1 => format!("1 {} 255 1 {}", text::name(&g.name()), rep % 2),
+                    _ => {
+                        let labels: Vec<Vec<u8>> = first.name.get_labels().iter().map(|l| l.as_bytes().iter().map(|b| if b.is_ascii_alphabetic() && r2.chance(1, 2) { b ^ 0x20 } else { *b }).collect()).collect();
+                        format!("1 {} 12 1 0", text::name(&crate::gen::mk_name(&labels)))
+                    }
+                };
+                let ptxt = format!("P 7 32768 0 0 o0 {} 2 {} {} 0 0", qtxt, text::rr(&first), text::rr(&rr));
                 let (bytes, _) = if rep % 3 == 2 || rep + 2 == n_reps { refenc::encode_packet(&ptxt, Compress::Never, false, None) } else { refenc::encode_packet(&ptxt, Compress::Random(&mut r2, 7), false, None) };
                 let bb = bytes.clone();
                 watch(&format!("parse {}", text::hex(&bytes)));
